@@ -2,6 +2,7 @@ package main
 
 import (
 	"bufio"
+	"encoding/binary"
 	"encoding/hex"
 	"fmt"
 	"math/big"
@@ -30,8 +31,13 @@ func (r *rng) rawMod(m *big.Int, allowNonCanon bool) limbs {
 		return bigToLimbs(new(big.Int).Mod(r.big256(), m))
 	case c < 70:
 		var l limbs
+		mixed := r.intn(3) == 0 // some limbs random, the others boundary words
 		for i := range l {
-			l[i] = edgeLimbs[r.intn(len(edgeLimbs))]
+			if mixed && r.intn(2) == 0 {
+				l[i] = r.next()
+			} else {
+				l[i] = edgeLimbs[r.intn(len(edgeLimbs))]
+			}
 		}
 		v := limbsToBig(l)
 		if v.Cmp(m) >= 0 && !(allowNonCanon && r.intn(2) == 0) {
@@ -87,8 +93,28 @@ func (r *rng) scalarVal() *big.Int {
 	}
 }
 
+// rInvP = R^-1 mod p: a value v*rInvP has Montgomery limbs equal to the plain limbs of v
+var rInvP = new(big.Int).ModInverse(bigR, bigP)
+
+// sparseMont returns a non-zero field value whose Montgomery representation has a single non-zero 64-bit limb (or two):
+// scalings by such values give coordinates whose limbs are mostly zero, the blind spot of limb-wise comparisons
+func (r *rng) sparseMont() *big.Int {
+	k := []uint64{1, 2, 12, 1 << 63, ^uint64(0), r.next() | 1}[r.intn(6)]
+	v := new(big.Int).Lsh(new(big.Int).SetUint64(k), uint(64*r.intn(4)))
+	if r.intn(4) == 0 {
+		v.Add(v, new(big.Int).Lsh(new(big.Int).SetUint64(r.next()|1), uint(64*r.intn(4))))
+	}
+	v.Mod(v, bigP)
+	if v.Sign() == 0 {
+		v.SetInt64(1)
+	}
+	return modP(new(big.Int).Mul(v, rInvP))
+}
+
 func (r *rng) lambda() *big.Int {
-	switch r.intn(5) {
+	switch r.intn(6) {
+	case 5:
+		return r.sparseMont()
 	case 0:
 		return big.NewInt(1)
 	case 1:
@@ -222,6 +248,8 @@ func genField(e *emitter, r *rng, n int) {
 func (r *rng) bytes32Edge(m *big.Int) []byte {
 	b := make([]byte, 32)
 	switch c := r.intn(100); {
+	case c < 12:
+		return r.wordBytes(4)
 	case c < 35:
 		return r.bytes(32)
 	case c < 55:
@@ -245,9 +273,36 @@ func (r *rng) bytes32Edge(m *big.Int) []byte {
 	return b
 }
 
+// wordBytes: big-endian string of n 64-bit words, each word 0, all-ones, a small value or random (weighted towards the
+// first two): carry/borrow chains and wide reductions break on such patterns, never on uniformly random strings
+func (r *rng) wordBytes(n int) []byte {
+	b := make([]byte, 8*n)
+	for i := 0; i < n; i++ {
+		var w uint64
+		switch c := r.intn(20); {
+		case c < 6:
+			w = 0
+		case c < 12:
+			w = ^uint64(0)
+		case c < 14:
+			w = uint64(1 + r.intn(3))
+		case c < 15:
+			w = ^uint64(0) - uint64(r.intn(3))
+		case c < 16:
+			w = 1 << 63
+		default:
+			w = r.next()
+		}
+		binary.BigEndian.PutUint64(b[8*i:], w)
+	}
+	return b
+}
+
 func (r *rng) bytes48Edge(m *big.Int) []byte {
 	b := r.bytes(48)
-	switch r.intn(8) {
+	switch r.intn(10) {
+	case 8, 9:
+		return r.wordBytes(6)
 	case 0:
 		for i := range b {
 			b[i] = 0xff
@@ -328,6 +383,26 @@ func genScalarAPI(e *emitter, r *rng, n int) {
 	e.line("SC.zero")
 	e.line("SC.one")
 	e.line("SC.minusone")
+	// boundary x boundary: every binary operation on every pair of boundary values (and nil), every unary one on each
+	n1 := new(big.Int).Sub(bigN, big1)
+	edge := []string{}
+	for _, v := range []*big.Int{big.NewInt(0), big1, big.NewInt(2), n1, new(big.Int).Sub(bigN, big.NewInt(2)), new(big.Int).Rsh(bigN, 1),
+		new(big.Int).Lsh(big1, 255), new(big.Int).Mod(bigR, bigN)} {
+		edge = append(edge, showL(montN(v)))
+	}
+	for _, a := range edge {
+		for _, op := range []string{"SC.addself", "SC.subself", "SC.mulself", "SC.sq", "SC.inv", "SC.powself", "SC.bits", "SC.enc", "SC.iszero", "SC.isone"} {
+			e.line(op, a)
+		}
+		for _, b := range append([]string{"nil"}, edge...) {
+			for _, op := range []string{"SC.add", "SC.sub", "SC.mul", "SC.pow", "SC.set", "SC.eq"} {
+				e.line(op, a, b)
+			}
+			if b != "nil" {
+				e.line("SC.leq", a, b)
+			}
+		}
+	}
 	for guard := 0; e.n < n && guard < 200*n+1000; guard++ {
 		a, b := showL(montN(r.scalarVal())), showL(montN(r.scalarVal()))
 		if r.intn(4) == 0 {
@@ -384,7 +459,14 @@ func genScalarAPI(e *emitter, r *rng, n int) {
 			e.line("SC.leq", a, b)
 		case 13, 14:
 			c := []string{"0", "1", "2", "3", "100000000", "8000000000000000", "ffffffffffffffff", "fffffffffffffffe", fmt.Sprintf("%x", r.next())}[r.intn(9)]
-			e.line("SC.csel", showL(r.scCanon()), c, optS(r, a), optS(r, b))
+			rc := showL(r.scCanon())
+			switch r.intn(3) { // receiver holding the same value as an operand: run.go then passes the very same object
+			case 1:
+				rc = a
+			case 2:
+				rc = b
+			}
+			e.line("SC.csel", rc, c, optS(r, a), optS(r, b))
 		case 15, 16, 17:
 			e.line("SC.bits", a)
 		case 18:
@@ -534,8 +616,43 @@ func exceptionalU() []*big.Int {
 	return []*big.Int{big.NewInt(0), s, new(big.Int).Sub(bigP, s)}
 }
 
+// sparseTv2U: field elements u for which the quantity the exceptional branch of SSWU tests, tv2 = Z^2 u^4 + Z u^2, is
+// non-zero but has a Montgomery representation with a single non-zero limb (solve tv1^2 + tv1 = t, u^2 = tv1/Z):
+// inputs on which a zero test that looks at only part of the limbs takes the wrong branch
+func sparseTv2U(max int) []*big.Int {
+	var out []*big.Int
+	z := modP(big.NewInt(-11))
+	zinv := new(big.Int).ModInverse(z, bigP)
+	inv2 := new(big.Int).ModInverse(big.NewInt(2), bigP)
+	for j := 3; j >= 0 && len(out) < max; j-- {
+		found := 0
+		for k := int64(1); k < 400 && found < max/4+1; k++ {
+			t := modP(new(big.Int).Mul(new(big.Int).Lsh(big.NewInt(k), uint(64*j)), rInvP))
+			disc := modP(new(big.Int).Add(big1, new(big.Int).Lsh(t, 2)))
+			sq, ok := sqrtP(disc)
+			if !ok {
+				continue
+			}
+			for _, sg := range []*big.Int{sq, new(big.Int).Sub(bigP, sq)} {
+				tv1 := modP(new(big.Int).Mul(new(big.Int).Sub(sg, big1), inv2))
+				u2 := modP(new(big.Int).Mul(tv1, zinv))
+				if u, ok := sqrtP(u2); ok && u.Sign() != 0 {
+					out = append(out, u)
+					found++
+					break
+				}
+			}
+		}
+	}
+	return out
+}
+
 func genMap(e *emitter, r *rng, n int) {
 	for _, u := range exceptionalU() {
+		e.line("PT.sswu", showL(montP(u)))
+		e.line("PT.map", showL(montP(u)))
+	}
+	for _, u := range sparseTv2U(12) {
 		e.line("PT.sswu", showL(montP(u)))
 		e.line("PT.map", showL(montP(u)))
 	}
